@@ -373,7 +373,9 @@ def r19_4(run):
         run.ob('R19.4', la, n.ast, 'a temporary directory is created only when none was supplied', ok, slot='mkdtemp-guard', message='mkdtemp not guarded')
     # launch waits for the connected notification of the protocol it spawned
     wc = [c for c in calls_in(la) if dotted(c.func) == PPN + '.when_connected']
-    run.ob('R19.4', la, la.node, "launch's result is the process protocol's connected notification", len(wc) == 1 and any(isinstance(a, ast.Yield) and dotted(a.value) == CCB for a in walk_unit(la)),
+    # (the local that holds it: whatever name every when_connected() result is bound to - directly or as an arm of a conditional expression)
+    holders = set(names_defined_by(la, lambda v: any(x is c for c in wc for x in ast.walk(v))))
+    run.ob('R19.4', la, la.node, "launch's result is the process protocol's connected notification", len(wc) == 1 and any(isinstance(a, ast.Yield) and (dotted(a.value) == CCB or dotted(a.value) in holders or any(a.value is c for c in wc)) for a in walk_unit(la)),
            slot='await-connected', message='launch does not await process_protocol.when_connected()')
     sp = [c for c in calls_in(la) if dotted(c.func) == 'reactor.spawnProcess']
     ok = len(sp) == 1 and dotted(sp[0].args[0]) == PPN
